@@ -188,11 +188,16 @@ def build(ctx):
             kr_t = {"So": np.linspace(0, 1, 30)}
             kr_t.update({"Sg": 1 - kr_t["So"], "Sw": 0 * kr_t["So"], "kro": kr_t["So"] ** 2, "krg": 0.8 * (1 - kr_t["So"]) ** 1.5, "krw": 0.05 + 0 * kr_t["So"]})
             rho = {kk: v * factor for kk, v in c16.RHO_REAL.items()}
-            fp = Fp.from_table(pd.DataFrame(pv), pd.DataFrame(kr_t), rho, 0.1, 0.1, 6000.0)
-            ms = np.asarray(fp.pvt_props["m-scaled"], dtype=float)
-            ok = np.all(np.diff(ms) > 0) and abs(float(fp.m_i) - 1) < 1e-9 and 0 <= float(fp.m_scaled_func(1000.0)) < 1
+            # initial pressure ON a table node: m_i == 1; between two nodes the scaled value is 1 up to the linear-interpolation
+            # error of the user-diffusivity branch (C09: "1 at table nodes and within linear-interpolation error above 1 between them")
+            for p_i_, lo_, hi_ in ((float(pv["pressure"][44]), 1 - 1e-9, 1 + 1e-9), (6000.0, 1 - 1e-9, 1 + 2e-3)):
+                fp = Fp.from_table(pd.DataFrame(pv), pd.DataFrame(kr_t), rho, 0.1, 0.1, p_i_)
+                ms = np.asarray(fp.pvt_props["m-scaled"], dtype=float)
+                ok = np.all(np.diff(ms) > 0) and ms[0] == 0.0 and lo_ <= float(fp.m_i) <= hi_ and 0 <= float(fp.m_scaled_func(1000.0)) < 1
+                if not ok:
+                    break
             if not ok:
-                return {"reproduced": True, "input": {"table": "synthetic linear 1/B", "reference density factor": factor, "p_i": 6000.0}, "observed": {"m_i": float(fp.m_i), "min increment": float(np.diff(ms).min()), "m_scaled(1000)": float(fp.m_scaled_func(1000.0))}, "required": "strictly increasing, m_i == 1, frac-face value in [0, 1)"}
+                return {"reproduced": True, "input": {"table": "synthetic linear 1/B", "reference density factor": factor, "p_i": p_i_}, "observed": {"m-scaled at the first table pressure": float(ms[0]), "m_i": float(fp.m_i), "min increment": float(np.diff(ms).min()), "m_scaled(1000)": float(fp.m_scaled_func(1000.0))}, "required": "zero at the first table pressure, strictly increasing, m_i == 1 (on a node; within interpolation error above 1 between nodes), frac-face value in [0, 1)"}
         return replay_m3(w)
 
     obs.append(Obligation("from_table.m3", "from_table: the wrapper receives the table's pressure column and the cumulative trapezoid of the documented mobility of the table interpolants; m-scaled is a constant multiple of it", ft,
